@@ -249,16 +249,30 @@ def type_listing(F, S):
         out.append(bad("R-SIB", inst, fn.loc(fn.body), fn.qn, "the list starts from the loose files of that type and is the list returned", "shape not found"))
     # IsDuplicateFilename: any element equal under PathsAreEqual
     d = F.fn(RM + "::IsDuplicateFilename", nparams=2)
-    calls = [nd for nd in d.nodes if nd["k"] in CALLS and (nd.get("fq") or "") == XF + "PathsAreEqual"]
-    loops = [nd for nd in d.nodes if nd["k"] == "CXXForRangeStmt"]
+    from ..through import searches
+    ss = [x for x in searches(F, d) if x["range"] == P(d, 0)]
     inst = RM + "::IsDuplicateFilename#predicate"
     req = "a name is a duplicate iff some listed name is PathsAreEqual to it (case-blind)"
-    good = len(calls) == 1 and len(loops) == 1 and d.term(loops[0]["range"]) == P(d, 0) and mentions(d.term(calls[0]["id"]), P(d, 1))
-    rv = [d.n(d.strip(r["value"])).get("v") for r in returns(d)]
-    if good and sorted(rv) == [0, 1]:
-        out.append(ok("R-SIB", inst, d.loc(calls[0]["id"]), d.qn, req, fmt_term(d.term(calls[0]["id"]))))
+    good = False
+    detail = "shape not found"
+    if len(ss) == 1:
+        x = ss[0]
+        pr = x["pred"]
+        pred_ok = pr[0] == "call" and pr[1] == XF + "PathsAreEqual" and mentions(pr, P(d, 1)) and mentions(pr, x["elem"])
+        if x["kind"] == "loop":
+            # return true inside the test, false after the loop
+            inner = [d.n(d.strip(r["value"])).get("v") for r in returns(d) if r["id"] in d.subtree(x["if"]["id"])]
+            outer = [d.n(d.strip(r["value"])).get("v") for r in returns(d) if r["id"] not in d.subtree(x["node"]["id"])]
+            res_ok = inner == [1] and outer == [0]
+        else:
+            rets = returns(d)
+            res_ok = x["kind"] == "algo:any_of" and len(rets) == 1 and d.term(rets[0]["value"]) == d.term(x["node"]["id"])
+        good = pred_ok and res_ok
+        detail = fmt_term(pr)
+    if good:
+        out.append(ok("R-SIB", inst, d.loc(ss[0]["node"]["id"]), d.qn, req, detail))
     else:
-        out.append(bad("R-SIB", inst, d.loc(d.body), d.qn, req, "shape not found"))
+        out.append(bad("R-SIB", inst, d.loc(d.body), d.qn, req, detail))
     return out
 
 
@@ -276,6 +290,20 @@ def containing_archive(F, S):
             site = final_site_facts(eng, fn, r["id"]) or set()
             arch = t[2] if t[0] == "call" else t[1]
             good = any(f[0] == "true" and f[1] == ("call", ARC + "::Contains", arch, (P(fn, 0),)) for f in site)
+            if not good:
+                # algorithm form: the archive is *it for it = find_if(archives, a -> a->Contains(name)), returned only when it != end
+                from ..through import searches
+                from .c05 import alias_defs, resolve
+                a2 = resolve(arch, alias_defs(fn))
+                for x in searches(F, fn):
+                    if x["kind"] == "algo:find_if" and a2 == ("un", "*", ("un", "*", fn.term(x["node"]["id"]))) or \
+                            (x["kind"] == "algo:find_if" and mentions(a2, fn.term(x["node"]["id"]))):
+                        pr = x["pred"]
+                        pred_ok = pr[0] == "call" and pr[1] == ARC + "::Contains" and pr[3] == (P(fn, 0),) and mentions(pr[2], x["elem"])
+                        it = [v for v, t0 in alias_defs(fn).items() if t0 == fn.term(x["node"]["id"])]
+                        endt = ("call", None)
+                        guarded = any(f[0] == "!=" and it and it[0] in (f[1], f[2]) and "end" in repr(f) for f in site)
+                        good = pred_ok and guarded
             inst = RM + "::FindContainingArchivePath#contains"
             req = "the archive whose name is reported is the one whose Contains(name) held"
             if good:
